@@ -15,3 +15,16 @@
   (ite (= bits 16) (and (<= 0 v) (<= v 65535))
   (ite (= bits 32) (and (<= 0 v) (<= v 4294967295))
        (and (<= 0 v) (<= v 18446744073709551615))))))
+
+; Range boundary slices (schema.RangeBoundarySlicer): an ordered collection of [start,end] pairs whose
+; boundaries are int64, uint64 or float64 values boxed in interface values. The order used by the
+; range checks is the numeric order of the boundary type.
+(declare-fun rb_len (Iface) Int)
+(declare-fun rb_start (Iface Int) Iface)
+(declare-fun rb_end (Iface Int) Iface)
+(define-fun rb_lt ((s Iface) (a Iface) (b Iface)) Bool
+  (ite (= (i_tag s) tag$schema.DrbSlice) (fp.lt (ub$F64 (i_box a)) (ub$F64 (i_box b)))
+       (< (ub$Int (i_box a)) (ub$Int (i_box b)))))
+(define-fun rb_gt ((s Iface) (a Iface) (b Iface)) Bool
+  (ite (= (i_tag s) tag$schema.DrbSlice) (fp.gt (ub$F64 (i_box a)) (ub$F64 (i_box b)))
+       (> (ub$Int (i_box a)) (ub$Int (i_box b)))))
